@@ -150,6 +150,8 @@ pub enum Event {
     Queued { tr: usize, idx: usize },
     Sample(Sample),
     Advance { to: u64 },
+    /// `n` locally refused publishes were issued (identifier burn)
+    Burn { n: u32 },
 }
 
 impl From<IoEvent> for Event {
